@@ -97,7 +97,8 @@ def gen_cfg(rng, family=None):
         if rng.random() < 0.3:
             nets.append(rng.choice([dict(type='erdosrenyi', p=rng.choice([0.03, 0.06])), dict(type='disk', r=0.15, v=0.1)]))
     if family in ('sexual', 'mixed'):
-        nets.append(dict(type=rng.choice(['mf', 'mf', 'msm']), duration=rng.choice([1, 3])))
+        nets.append(dict(type=rng.choice(['mf', 'mf', 'msm']), duration=rng.choice([1, 3]), acts=rng.choice([None, None, 0.5, 1.0, 3.0, 12.0])))
+        if rng.random() < 0.3: cfg['dt'] = rng.choice([1 / 52, 1 / 365])     # short steps: acts*dt < 1 also at the default 80 acts a year
         if rng.random() < 0.5 and not any(n['type'] == 'random' for n in nets):
             nets.append(dict(type='random', n_contacts=2, dur=0))
     if family == 'maternal':
@@ -219,8 +220,12 @@ def mk_network(n):
     if t == 'hub':       # static bipartite graph: few low-uid hubs joined to everybody else (edges come out sorted by p1)
         import networkx as nx
         return ss.StaticNet(graph=nx.complete_bipartite_graph(n['hubs'], n['n_agents'] - n['hubs']))
-    if t == 'mf' and n.get('dt'):
-        return ss.MFNet(duration=ss.lognorm_ex(mean=n.get('duration', 5), std=1.0), dt=n['dt'])
+    if t in ('mf', 'msm', 'embedding') and (n.get('dt') or n.get('acts') is not None):
+        # acts = mean number of acts per YEAR of a partnership (Poisson): low values give edges with acts == 0 and acts*dt < 1
+        kw = dict(duration=ss.lognorm_ex(mean=n.get('duration', 5), std=1.0))
+        if n.get('dt'): kw['dt'] = n['dt']
+        if n.get('acts') is not None: kw['acts'] = ss.poisson(lam=n['acts'])
+        return dict(mf=ss.MFNet, msm=ss.MSMNet, embedding=ss.EmbeddingNet)[t](**kw)
     return impl._network(n, 0)
 
 
@@ -1175,11 +1180,16 @@ def oracle_records(R, cfg):
                 F('source-joined', f"{tag}: no edge of {r['key']} joins source {s} to target {t} in a direction with positive beta (betas {r['b']}, "
                                    f"p1->p2 edges {int(fwd.sum())}, p2->p1 edges {int(bwd.sum())})")
             else:
-                w = 0.0
-                if r['b'][0] > 0 and fwd.any(): w = max(w, float(r['beta'][fwd].max()))
-                if r['b'][1] > 0 and bwd.any(): w = max(w, float(r['beta'][bwd].max()))
+                w = 0.0; pt = 0.0      # largest weight / largest per-step transmissibility among the joining edges
+                for dd, m in ((0, fwd), (1, bwd)):
+                    if r['b'][dd] > 0 and m.any():
+                        w = max(w, float(r['beta'][m].max()))
+                        pt = max(pt, float(per_step_transmissibility(r, r['b'][dd])[m].max()))
                 if w <= 0:
                     F('zero-factor', f"{tag}: transmission {s}->{t} over {r['key']} although every joining edge has weight 0", factor='edge-beta')
+                elif pt <= 0:
+                    F('zero-factor', f"{tag}: transmission {s}->{t} over {r['key']} although every joining edge has zero per-step transmissibility "
+                                     f"(no acts in the step: acts {r['acts'][fwd | bwd].tolist()[:4]}, dt {r['dt']})", factor='acts')
         # first source: the reported source is the one of the first kernel call (in order) that returned the target
         first = {}
         for c in rec['calls']:
@@ -1207,13 +1217,11 @@ def oracle_records(R, cfg):
                 F('effective-factor', f'{ktag}: the susceptibility array given to the kernel is not susceptible*rel_sus', factor='rel_sus')
             # per-step transmissibility of the edge
             beta = r['b'][c['dir']]
-            if r['kind'] == 'plain':
-                expb = r['beta'] * beta
-            else:
-                expb = r['beta'] * (1 - (1 - beta) ** (r['acts'] * r['dt']))
+            expb = per_step_transmissibility(r, beta)
             if len(expb) != len(c['b']) or not np.allclose(c['b'], expb, rtol=3e-7, atol=1e-15):
                 j = int(np.argmax(np.abs(c['b'] - expb))) if len(expb) == len(c['b']) else 0
-                F('net-beta', f"{ktag}: beta_per_dt of edge {j} is {c['b'][j]!r}, expected {expb[j]!r} from edge weight {r['beta'][j]!r} and beta {beta!r}")
+                F('net-beta', f"{ktag}: beta_per_dt of edge {j} is {c['b'][j]!r}, expected {expb[j]!r} from edge weight {r['beta'][j]!r} and beta {beta!r}"
+                              + (f" with {r['acts'][j]!r} acts a year at dt {r['dt']!r}" if r['kind'] != 'plain' else ''))
             # output == (p > r), p = rel_trans[src]*rel_sus[trg]*beta_per_dt, from the arguments the kernel got
             p = (c['rt'][c['src']] * c['rs'][c['trg']]) * c['b']
             mask = p > c['r']
@@ -1341,6 +1349,46 @@ def oracle_records(R, cfg):
     return fails
 
 
+def per_step_transmissibility(r, beta):
+    """ the property's per-step transmissibility of every edge of a recorded route: weight x beta, and for sexual networks
+        weight x (1 - (1 - beta)^(acts in the step)) """
+    if r['kind'] == 'plain':
+        return r['beta'] * beta
+    return r['beta'] * (1 - (1 - beta) ** (r['acts'] * r['dt']))
+
+
+def oracle_netbeta(dts=(1.0, 0.25, 1 / 365)):
+    """ net_beta of real network objects called directly on constructed edge weights and act counts — including weight 0,
+        acts 0 and fewer than one act per step — against the formula of the property, for a float and for the sim's own TimePar beta """
+    import starsim as ss
+    fails = []
+    ws = np.array([0.0, 1.0, 0.5, 0.25, 2.0, 1.0, 1.0, 0.75], dtype=np.float32)
+    acts = np.array([3, 0, 1, 2, 0, 80, 1, 5])
+    for dt in dts:
+        sim = ss.Sim(n_agents=40, dur=3 * dt, dt=dt, start=2000, diseases=ss.SIS(beta=0.3, init_prev=0.2), verbose=0, rand_seed=3,
+                     networks=[ss.RandomNet(n_contacts=2), ss.MFNet(), ss.MSMNet(), ss.EmbeddingNet()])
+        sim.init(); sim.run_one_step()
+        for net in sim.networks.values():
+            n = len(net.edges.beta)
+            if n == 0: continue
+            w = np.resize(ws, n); a = np.resize(acts, n)
+            net.edges.beta[:] = w
+            sexual = isinstance(net, ss.SexualNetwork)
+            if sexual: net.edges.acts[:] = a
+            for b in (0.0, 0.05, 0.6, 1.0, sim.diseases[0].pars.beta):
+                bf = beta_float(b)
+                got = np.asarray(net.net_beta(disease_beta=b), dtype=np.float64)
+                want = w.astype(np.float64) * ((1 - (1 - bf) ** (np.asarray(net.edges.acts, dtype=np.float64) * float(net.t.dt))) if sexual else bf)
+                if got.shape != want.shape or not np.allclose(got, want, rtol=3e-7, atol=1e-15):
+                    j = int(np.argmax(np.abs(got - want))) if got.shape == want.shape else 0
+                    extra = f", {int(net.edges.acts[j])} acts a year at dt {float(net.t.dt)!r} ({float(net.edges.acts[j]) * float(net.t.dt)!r} acts in the step)" if sexual else ''
+                    fails.append(dict(signature=dict(oracle='net-beta', level='unit'),
+                                      what=f"{type(net).__name__}.net_beta(disease_beta={b!r}) gives {got[j]!r} for an edge of weight {float(w[j])!r}{extra}; "
+                                           f"the per-step transmissibility of that edge is {want[j]!r}", dts=[dt]))
+                    return fails
+    return fails
+
+
 def oracle_run(cfg):
     R = run_recorded(cfg)
     return oracle_records(R, cfg), R
@@ -1434,6 +1482,8 @@ def search(ctx):
         ctx.fail(f['signature'], f['what'], dict(kind='boundary'))
     for f in oracle_unique():
         ctx.fail(f['signature'], f['what'], dict(kind='unique', arr=f['arr']))
+    for f in oracle_netbeta():
+        ctx.fail(f['signature'], f['what'], dict(kind='netbeta-unit', dts=f['dts']))
     for j in range(ctx.budget(3, 12)):      # real AgeGroup objects called directly: membership now, for every cache setting
         seed = ctx.seed * 100 + 50 + j
         fails, ncalls, skipped = c12_groups.oracle_agegroup(seed, 40)
@@ -1553,6 +1603,10 @@ def replay(ctx, data):
     if data.get('kind') == 'unique':
         fails = oracle_unique([data['arr']] if data.get('arr') is not None else None)
         for f in fails: print('  ', f['what'][:300])
+        return bool(fails)
+    if data.get('kind') == 'netbeta-unit':
+        fails = oracle_netbeta(tuple(data.get('dts') or (1.0, 0.25, 1 / 365)))
+        for f in fails: print('  ', f['signature'], f['what'][:300])
         return bool(fails)
     if data.get('kind') == 'agegroup':
         fails, _, _ = c12_groups.oracle_agegroup(data['seed'], data.get('nops', 40))
